@@ -260,8 +260,15 @@ func (rig *parsimRig) shrink(v PViolation, race bool) PViolation {
 			break
 		}
 		progressed := false
-		for lo := 0; lo < len(cands) && !progressed; lo += 40 {
-			hi := min(len(cands), lo+40)
+		batch := 40
+		if v.Case.Cold {
+			batch = 1 // a cold case must be the first of its process
+			if len(cands) > 60 {
+				cands = cands[:60]
+			}
+		}
+		for lo := 0; lo < len(cands) && !progressed; lo += batch {
+			hi := min(len(cands), lo+batch)
 			outs, err := rig.runExplicit(cands[lo:hi], race, false)
 			if err != nil || len(outs) != hi-lo {
 				return v
@@ -386,12 +393,14 @@ type parsimPlan struct {
 	runs                  int
 	raceRuns              int
 	chunk                 int
+	coldRuns              int  // single-case processes (scheduled), and as many on the race build
+	stmtYields            bool // weave a yield before every statement, not only at function/loop entries
 }
 
 // CheckC06: memoisation is invisible, also under arbitrary loss of memo
 // entries.
 func CheckC06(e *Env) (int, error) {
-	plan := parsimPlan{nGen: 36, inputs: 36, optsPer: 2, runs: 400000, chunk: 5000}
+	plan := parsimPlan{nGen: 36, inputs: 36, optsPer: 2, runs: 250000, chunk: 4000}
 	if e.Tier == "thorough" {
 		plan = parsimPlan{nGen: 220, inputs: 80, optsPer: 4, runs: 8000000, chunk: 40000}
 	}
@@ -400,7 +409,7 @@ func CheckC06(e *Env) (int, error) {
 
 // CheckC12: reuse through Reset equals a fresh parser.
 func CheckC12(e *Env) (int, error) {
-	plan := parsimPlan{nGen: 36, inputs: 36, optsPer: 2, runs: 120000, chunk: 2000}
+	plan := parsimPlan{nGen: 36, inputs: 36, optsPer: 2, runs: 80000, chunk: 1500}
 	if e.Tier == "thorough" {
 		plan = parsimPlan{nGen: 220, inputs: 80, optsPer: 4, runs: 3000000, chunk: 20000}
 	}
@@ -409,9 +418,9 @@ func CheckC12(e *Env) (int, error) {
 
 // CheckC14: instances do not interfere under any interleaving.
 func CheckC14(e *Env) (int, error) {
-	plan := parsimPlan{nGen: 24, inputs: 30, optsPer: 2, runs: 24000, raceRuns: 1600, chunk: 300}
+	plan := parsimPlan{nGen: 24, inputs: 30, optsPer: 2, runs: 24000, raceRuns: 1600, chunk: 300, coldRuns: 160, stmtYields: true}
 	if e.Tier == "thorough" {
-		plan = parsimPlan{nGen: 120, inputs: 60, optsPer: 4, runs: 600000, raceRuns: 40000, chunk: 4000}
+		plan = parsimPlan{nGen: 120, inputs: 60, optsPer: 4, runs: 600000, raceRuns: 40000, chunk: 4000, coldRuns: 2400, stmtYields: true}
 	}
 	return parsimCheck(e, "C14", "c14", plan)
 }
@@ -426,7 +435,7 @@ func parsimCheck(e *Env, prop, mode string, plan parsimPlan) (int, error) {
 	if err != nil {
 		return 2, err
 	}
-	rig, err := buildParsim(e, sc, specs, plan.raceRuns > 0, true)
+	rig, err := buildParsimOpt(e, sc, specs, plan.raceRuns > 0, true, plan.stmtYields)
 	if err != nil {
 		return 2, err
 	}
@@ -443,6 +452,25 @@ func parsimCheck(e *Env, prop, mode string, plan parsimPlan) (int, error) {
 		return 2, err
 	}
 	e.Logf("sweep done: %d runs", agg.Runs)
+	coldN := 0
+	if plan.coldRuns > 0 {
+		// cold starts: one case per process, the concurrent run first
+		const coldBase = 1_000_000
+		cold, err := rig.sweepRange(mode, e.Seed, coldBase, coldBase+plan.coldRuns, false, 1, 30*time.Minute)
+		if err != nil {
+			return 2, err
+		}
+		coldN = cold.Runs
+		agg.merge(cold)
+		if plan.raceRuns > 0 {
+			coldRace, err := rig.sweepRange(mode, e.Seed, coldBase, coldBase+plan.coldRuns, true, 1, 30*time.Minute)
+			if err != nil {
+				return 2, err
+			}
+			agg.Viol = append(agg.Viol, coldRace.Viol...)
+		}
+		e.Logf("cold sweeps done: %d runs", coldN)
+	}
 	var raceAgg *parsimAgg
 	if plan.raceRuns > 0 {
 		raceAgg, err = rig.sweep(mode, e.Seed, plan.raceRuns, true, max(10, plan.raceRuns/(e.Jobs*2)), 30*time.Minute)
@@ -495,6 +523,8 @@ func parsimCheck(e *Env, prop, mode string, plan parsimPlan) (int, error) {
 		cov["distinct_site_adjacency_pairs"] = len(agg.Adjacent)
 		cov["runs_abandoned_at_step_cap"] = agg.Stats["abandoned"]
 		cov["goid_fast_path"] = agg.GoidFast
+		cov["cold_start_runs"] = coldN
+		cov["cold_start_note"] = "single-case worker processes in which the concurrent run precedes the solo references, so lazily initialised package-level state is met cold; repeated on the -race build"
 		if raceAgg != nil {
 			cov["race_detector_runs"] = raceAgg.Runs
 			cov["race_detector_note"] = "free-running goroutines on an unwoven -race build of the same workload: runtime monitoring, reported separately and not counted as simulated runs"
@@ -546,7 +576,15 @@ func (rig *parsimRig) validateWeaving(mode string, seed uint64) (int, error) {
 			}
 			return err
 		}
-		b, err := rig.runJob(&PJob{Mode: mode, Seed: seed, From: from, To: to, RefSigs: true, Plain: true}, false, 20*time.Minute)
+		// the unwoven build has no step budget: it computes reference
+		// observations only, and not for cases the woven build had to skip
+		var skip []int
+		for k, sig := range a.RefSigs {
+			if sig == 0 {
+				skip = append(skip, from+k)
+			}
+		}
+		b, err := rig.runJob(&PJob{Mode: mode, Seed: seed, From: from, To: to, RefSigs: true, RefOnly: true, Skip: skip, Plain: true}, false, 10*time.Minute)
 		if err != nil {
 			if wc, ok := err.(workerCrash); ok {
 				return infra("the unwoven runner crashed in sequential mode: %s", clipStr(wc.msg, 1500))
@@ -557,12 +595,19 @@ func (rig *parsimRig) validateWeaving(mode string, seed uint64) (int, error) {
 			return infra("weaving validation: %d vs %d results", len(a.RefSigs), len(b.RefSigs))
 		}
 		for k := range a.RefSigs {
-			if a.RefSigs[k] != b.RefSigs[k] {
+			// 0 = no reference observation (the woven build counts steps and
+			// skips a case whose reference exceeds the budget; the unwoven
+			// build has nothing to count)
+			if a.RefSigs[k] != 0 && b.RefSigs[k] != 0 && a.RefSigs[k] != b.RefSigs[k] {
 				return infra("weaving changes behaviour: case %d of mode %s observes differently in the woven and the unwoven build", from+k, mode)
 			}
 		}
 		mu.Lock()
-		validated += len(a.RefSigs)
+		for k := range a.RefSigs {
+			if a.RefSigs[k] != 0 && b.RefSigs[k] != 0 {
+				validated++
+			}
+		}
 		mu.Unlock()
 		return nil
 	})
